@@ -108,8 +108,10 @@ pub enum AOp {
     DisplayToStack,
     /// Display of the error values into a fixed stack buffer
     ErrorDisplay,
+    /// Clone::clone_from on the generator (in-place clone), PartialEq on hashes / generators, Debug into a stack buffer
+    TraitImpls,
 }
-pub const AOP_KINDS: usize = 18;
+pub const AOP_KINDS: usize = 19;
 fn aop_kind(op: &AOp) -> (usize, &'static str) {
     match op {
         AOp::New => (0, "Generator::new"),
@@ -130,6 +132,7 @@ fn aop_kind(op: &AOp) -> (usize, &'static str) {
         AOp::CompareStr { .. } => (15, "compare_with"),
         AOp::DisplayToStack => (16, "Display::fmt"),
         AOp::ErrorDisplay => (17, "error Display::fmt"),
+        AOp::TraitImpls => (18, "clone_from / PartialEq / Debug"),
     }
 }
 
@@ -316,6 +319,21 @@ fn run<K: Kind>(h: &Hist) -> RunOut {
                 fnv.write_u64(r.is_ok() as u64 + sb.len as u64);
                 n
             }
+            AOp::TraitImpls => {
+                let mut sb = StackBuf { buf: [0; 200], len: 0 };
+                let mut other = K::new_gen();
+                other.update(&data[..data.len().min(9)]);
+                let (r, n) = armed(|| {
+                    other.clone_from(&g);
+                    let a = h1 == h2;
+                    let b = h1.clone() == h1;
+                    let _ = core::fmt::write(&mut sb, format_args!("{:?} {:?}", h1, opts[3]));
+                    (a, b, opts[3] == opts[4])
+                });
+                fnv.write_u64(r.0 as u64 + 2 * r.1 as u64 + sb.len as u64);
+                g2 = Some(other);
+                n
+            }
             AOp::ErrorDisplay => {
                 let mut sb = StackBuf { buf: [0; 200], len: 0 };
                 let e1 = <K::H as FuzzyHashType>::from_str_bytes(b"T1", None).err();
@@ -394,13 +412,11 @@ fn draw_aop(r: &mut Rng, dlen: usize) -> AOp {
         96 => AOp::Quartile(r.below(256) as u8),
         97 => AOp::HashBuf,
         98 => AOp::CompareStr { bad: r.chance(1, 3) },
-        _ => {
-            if r.chance(1, 2) {
-                AOp::DisplayToStack
-            } else {
-                AOp::ErrorDisplay
-            }
-        }
+        _ => match r.below(3) {
+            0 => AOp::DisplayToStack,
+            1 => AOp::ErrorDisplay,
+            _ => AOp::TraitImpls,
+        },
     }
 }
 
@@ -413,7 +429,7 @@ impl Scenario for C18 {
         "C18"
     }
     fn rule(&self) -> &'static str {
-        "history = (variant, data, two hash values, op sequence over the 18 operation kinds (14 core operations + hash_buf_for, compare_with, Display and error Display into a stack buffer), thread placement); every op runs inside an armed allocator window; \
+        "history = (variant, data, two hash values, op sequence over the 19 operation kinds (14 core operations + hash_buf_for, compare_with, Display / error Display / Debug into a stack buffer, clone_from and PartialEq), thread placement); every op runs inside an armed allocator window; \
          distinct = distinct history digests; non-trivial = at least 3 armed calls; states = (variant, op kind, first-call-of-this-kind-in-the-run?)"
     }
     fn generate(&self, r: &mut Rng, _index: u64) -> Hist {
@@ -514,6 +530,7 @@ impl Scenario for C18 {
                 AOp::CompareStr { bad } => json!(["compare_str", bad]),
                 AOp::DisplayToStack => json!(["display"]),
                 AOp::ErrorDisplay => json!(["error_display"]),
+                AOp::TraitImpls => json!(["trait_impls"]),
             })
             .collect();
         json!({"variant": VARIANT_NAMES[h.variant as usize], "variant_id": h.variant, "data": h.data.to_json(), "raw1": hex(&h.raw1), "raw2": hex(&h.raw2),
@@ -551,6 +568,7 @@ impl Scenario for C18 {
                 "compare_str" => AOp::CompareStr { bad: b(1)? },
                 "display" => AOp::DisplayToStack,
                 "error_display" => AOp::ErrorDisplay,
+                "trait_impls" => AOp::TraitImpls,
                 o => return Err(format!("unknown op {o}")),
             });
         }
